@@ -142,8 +142,18 @@ fn real_main() -> i32 {
                 }
                 let mut d = verif::util::Dec::new(&bytes);
                 let p = verif::gen::build::gen_program(&mut d, verif::gen::build::GenCfg::full(nodes), &mut ctx);
-                let text = verif::gen::render::render(&p);
-                let r = verif::goml::compile_single(&ctx, &text);
+                let multi = args.iter().any(|a| a == "--multi");
+                let (text, r) = if multi {
+                    let mut ld = verif::util::Dec::new(&bytes[380..]);
+                    let layout = verif::gen::layout::choose_layout(&p, &mut ld);
+                    let files = verif::gen::render::render_project(&p, &layout);
+                    let text: String = files.iter().map(|(p, t)| format!("// ---- {p}\n{t}")).collect();
+                    (text, verif::goml::compile_project(&mut ctx, &files))
+                } else {
+                    let text = verif::gen::render::render(&p);
+                    let r = verif::goml::compile_single(&ctx, &text);
+                    (text, r)
+                };
                 let rs = verif::refsem::run(&p, 200_000);
                 let beh = match &r {
                     verif::goml::CompileRes::Ok(_, go) => match verif::behave::compare(&p, go, "C01") {
